@@ -83,10 +83,50 @@ def _configs(op, da, db, k_total, salt=""):
             if "axis" in op.tags and cfg["ka"] in ("object", "record") and kb in lattice.ARRAY_KINDS:
                 kb = "object"  # the axis is a secondary argument: a single vector is not broadcast against it
             cfg["kb"] = kb
+            # integer-typed stored columns on one of the array operands (values are then integer-valued for both backends)
+            cand = [w for w, kk in (("dtype_a", cfg["ka"]), ("dtype_b", kb)) if kk in lattice.ARRAY_KINDS or kk == "record"]
+            if (hk >> 31) % 3 == 0 and cand:
+                cfg[cand[(hk >> 33) % len(cand)]] = "i64"
+                cfg["ints"] = True
             kbk = kb in build.AK_LAYOUTS or kb == "record"
             cfg["spb"] = "momentum" if cfg["fb"] == "m" and kbk and (hk >> 27) % 2 else "generic"
+        if not db and (hk >> 31) % 7 == 0:
+            cfg["dtype_a"] = "i64"
+            cfg["ints"] = True
         out.append(cfg)
+    if db and "axis" not in op.tags:
+        # always present: a single object broadcast against an Awkward array whose columns are int64 (coordinates of the
+        # object that pass through unchanged must keep their own values), and the same pairing the other way round
+        SA, SB = R.SYSTEMS[da], R.SYSTEMS[db]
+        for j, (ka, kb, w) in enumerate((("object", ("flat", "jagged", "optrec")[h % 3], "dtype_b"),
+                                         (("jagged", "flat", "optlist")[h % 3], "object", "dtype_a"))):
+            out.append({"op": op.name, "da": da, "db": db, "ka": ka, "kb": kb, "sa": R.sysname(SA[(h >> (4 + j)) % len(SA)]),
+                        "sb": R.sysname(SB[(h >> (9 + j)) % len(SB)]), "fa": "gm"[(h >> 2) % 2], "fb": "gm"[(h >> 3) % 2],
+                        "extra": False, "alt": 0, "spa": "generic", "spb": "generic", "scal": "py", w: "i64", "ints": True})
     return out
+
+
+def _integer_valued(system, cart, d):
+    """the nearest vector whose stored coordinates in `system` are integers inside the coordinate ranges"""
+    c = tuple(mpf(x) for x in cart[:d])
+    if not R.representable(system, c):
+        return None
+    stored = [float(x) for x in R.from_cartesian(system, c)]
+    names = R.coord_names(system)
+    out = []
+    for n, x in zip(names, stored):
+        v = float(round(x))
+        if n == "rho":
+            v = max(1.0, v)
+        elif n == "theta":
+            v = min(3.0, max(1.0, v))
+        elif n == "phi":
+            v = min(3.0, max(-3.0, v))
+        elif n in ("t", "tau", "x", "z") and v == 0:
+            v = 1.0 if x >= 0 else -1.0
+        out.append(v)
+    back = [float(x) for x in R.to_cartesian(system, tuple(out))]
+    return back + [float(x) for x in cart[d:]]
 
 
 def cells(tier):
@@ -136,7 +176,7 @@ def strategy(cell, tier):
 def _desc(cell):
     return (f"{cell.get('opcall') or cell['op']} a:{cell['ka']}/{cell['da']}{cell['sa']}/{cell['fa']}/{cell.get('spa')}"
             + (f" b:{cell['kb']}/{cell['db']}{cell['sb']}/{cell['fb']}/{cell.get('spb')}" if cell.get("db") else "")
-            + f" scal={cell.get('scal')} extra={cell.get('extra')}")
+            + f" scal={cell.get('scal')} extra={cell.get('extra')}" + (f" int64:{'a' if cell.get('dtype_a') else 'b'}" if cell.get("ints") else ""))
 
 
 def _backend_label(cell):
@@ -160,6 +200,18 @@ def check_case(cell, elems, ctx):
         o0 = elems[0]["s"]["order"]
         for e in elems:
             e["s"]["order"] = o0
+    if cell.get("ints"):
+        # the int64 operand holds integer-valued stored coordinates; the other operand keeps its generated float values
+        elems = [dict(e) for e in elems]
+        for e in elems:
+            for which, sysname, dd in (("a", cell["sa"], cell["da"]), ("b", cell.get("sb"), cell.get("db"))):
+                if not dd or e.get(which) is None or not cell.get("dtype_" + which):
+                    continue
+                iv = _integer_valued(opcheck.parse_system(sysname), e[which]["c"], dd)
+                if iv is None:
+                    ctx.exclude("operand_not_representable")
+                    return
+                e[which] = dict(e[which], c=iv)
     if cell.get("opcall"):
         kinds = (cell["ka"], cell.get("kb"))
         if "record" in kinds and any(k in ("regular", "np2", "np2T") for k in kinds):
